@@ -25,7 +25,7 @@ from pymtl3.stdlib.stream.ifcs import RecvIfcRTL, SendIfcRTL
 from pymtl3.stdlib.stream.magic_memory import MagicMemoryRTL
 
 from vf.ref import mem_model as mm
-from vf.runner import sha12
+from vf.runner import Violation, sha12
 
 ID = "C18"
 LEVEL = "exploration"
@@ -43,7 +43,7 @@ RULE = ("case = memory kind (MagicMemoryCL 1-3 ports, latency 0-5 | stream Magic
         "disjoint ports => response contents identical under both timing configurations. "
         "non-trivial = the run contains a read whose bytes were last stored by >= 2 different earlier "
         "requests, or an AMO on bytes stored earlier by another port, AND the configuration has latency "
-        "> 1 or stall_prob > 0 or sink back-pressure; distinct by the sha of the whole case")
+        "> 1 (CL latency >= 2 / stream extra_latency >= 1) or stall_prob > 0 or sink back-pressure; distinct by the sha of the whole case")
 ASSUMPTIONS = [
   "harness-side sources/sinks obey the val/rdy and method-port protocols (a source never withdraws an "
   "offered request; a sink may be not-ready for any number of cycles); messages are mk_mem_msg(8,32,32)",
@@ -60,7 +60,7 @@ ASSUMPTIONS = [
   "response fields other than type, opaque and (for reads/AMOs) data are not judged, except by the "
   "metamorphic comparison, which compares whole responses",
 ]
-QUICK_S = 40
+QUICK_S = 34
 THOROUGH_S = 780
 
 NBYTES = 4096                 # memory size handed to the memories
@@ -449,7 +449,7 @@ def expected_call(base, r):
     return ("rd", base + off, l, None)
   if t == "wr":
     return ("wr", base + off, l, d & ((1 << (8 * l)) - 1))
-  return (t, base + off, l, d)
+  return (t, base + off, l, d & ((1 << (8 * l)) - 1))
 
 
 def judge_run(kind, base, streams, cfg, obs):
@@ -465,7 +465,6 @@ def judge_run(kind, base, streams, cfg, obs):
 
   # ---- 1. per-port log == the port's request sequence, each exactly once --------------------
   log = obs["log"]
-  owner = [None] * len(log)          # request index the entry belongs to (within its port)
   last_entry = {}                    # (port, k) -> index of the last log entry of request k
   for p in range(nports):
     exp = [expected_call(base, r) for r in streams[p]]
@@ -475,17 +474,16 @@ def judge_run(kind, base, streams, cfg, obs):
     for idx, e in enumerate(log):
       if e[0] != p:
         continue
-      call = (e[1], e[2], e[3], e[4])
+      # (the data operand is compared modulo 2^(8*nbytes): only those bytes can reach the memory)
+      call = (e[1], e[2], e[3], None if e[4] is None else e[4] & ((1 << (8 * e[3])) - 1))
       h = e[8]
       if h is not None and (h >= len(exp) or call != exp[h] or h not in (j, j - 1)):
         bad = (idx, e, exp[j] if j < len(exp) else None)
         break
       if j < len(exp) and call == exp[j] and h in (None, j):
-        owner[idx] = j
         last_entry[(p, j)] = idx
         j += 1
       elif j > 0 and call == exp[j - 1] and h in (None, j - 1):
-        owner[idx] = j - 1
         last_entry[(p, j - 1)] = idx
         repeats += 1
         if repeats == 1:
@@ -513,6 +511,7 @@ def judge_run(kind, base, streams, cfg, obs):
   for idx, e in enumerate(log):
     if not (0 <= e[0] < nports):
       V.append((f"{K}:processed_call_differs_from_request", f"log entry {idx} names port {e[0]}"))
+      break
 
   # ---- 2. sequential model applied in logged order -----------------------------------------
   model = mm.RefMem(NBYTES)
@@ -582,7 +581,8 @@ def judge_run(kind, base, streams, cfg, obs):
               f"{len(diff)} byte(s) differ; first (addr, read_mem, model) = "
               f"({diff[0][0]:#x}, {diff[0][1]:#x}, {diff[0][2]:#x}); window base {base:#x}"))
   info["bp"] = bp
-  info["config_nontrivial"] = cfg["lat"] > 1 or cfg["stall"] > 0 or bp
+  # total latency > 1 cycle: MagicMemoryCL latency >= 2, stream memory extra_latency >= 1
+  info["config_nontrivial"] = cfg["lat"] > (1 if kind == "cl" else 0) or cfg["stall"] > 0 or bp
   return V, info
 
 
@@ -762,18 +762,18 @@ def one(ctx, case, shrinking=False):
 
 def run_shard(ctx):
   switch = any(e.get("kind") == "known" and e.get("signature") == KNOWN_BP_SIG for e in ctx.known)
-  total = ctx.n(4800, 150000)
+  total = ctx.n(4800, 400000)
   t_start = time.time()
   budget = max(1.0, ctx.deadline - t_start)
 
   def phase(name, n, salt, excl, stop_gen, stop_shrink):
-    nviol0 = len(ctx.violations)
+    state = {"failed": False}          # set by the first violation: from then on Hypothesis shrinks
 
     @seed(ctx.hseed(salt))
     @ctx.settings(n)
     @given(cases())
     def t(case):
-      shrinking = len(ctx.violations) > nviol0
+      shrinking = state["failed"]
       now = time.time()
       if ctx.out_of_time() or now > (stop_shrink if shrinking else stop_gen):
         raise _StopSearch()
@@ -782,7 +782,11 @@ def run_shard(ctx):
         k = apply_exclusion(case)
         if k and not shrinking:
           ctx.exclude(EXCLUDE_NAME, k)
-      one(ctx, case, shrinking)
+      try:
+        one(ctx, case, shrinking)
+      except Violation:
+        state["failed"] = True
+        raise
       if not shrinking and ctx.evaluations % 37 == 1:
         ctx.sample({"kind": case["kind"], "cfg": case["cfg"], "streams": case["streams"]})
 
